@@ -120,6 +120,9 @@ func genHistOpts(c *sim.Case) histOpts {
 	if ho.o.Discovery {
 		ho.methods = [][]string{nil, {"S256"}, {"plain", "S256"}, {"S256", "plain"}, {"plain"}}[sim.Pick(c, "pkce-methods", 5)]
 	}
+	if ho.o.Discovery && sim.Weighted(c, "explicit-endpoints-too", 2, 1) == 1 {
+		ho.o.DiscoveryExplicit = true
+	}
 	if ho.o.Logout && ho.o.Discovery && sim.Bool(c, "explicit-logout-uri") {
 		ho.o.LogoutURI = "http://sso.test/custom-logout"
 	}
